@@ -268,13 +268,15 @@ NestCase(i) ==
 \*   sm  []map[string]T            [{"kx":{..}}]
 \*   ms  map[string][]T            {"kx":[{..}]}
 \*   ssm [][]map[string]T          [[{"kx":{..}}]]
-\*   sp0 []*T                      [null,{..}]
+\*   sp0 []*T                      [null,{..}]       (not compared in YAML: YAML null arrives as "")
+\*   sx  []T                       [5,{..}]          an element that is not an object: must fail
+\* (for this family the constant Kinds2 carries the shapes offered)
 \* The struct outcome is that of its one T element; conf.Load* must accept the respelt keys of B at
 \* any depth.  sp0: the statement says nothing about null elements; a loader may refuse the
 \* document, or skip the null (nil pointer) and fill the other element exactly.
-DeepShapes == {"ss", "sm", "ms", "ssm", "sp0"}
+DeepShapes == {"ss", "sm", "ms", "ssm", "sp0", "sx"}
 DeepInit ==
-  \E shape \in DeepShapes, n \in NameIds, k \in Kinds, id \in OptIds, doc \in DocsOf(LitIdx) :
+  \E shape \in DeepShapes \cap Kinds2, n \in NameIds, k \in Kinds, id \in OptIds, doc \in DocsOf(LitIdx) :
      /\ Applicable(id, k)
      /\ inp = [family |-> "deep", src |-> "typed", shape |-> shape, n |-> n, k |-> k, id |-> id, doc |-> doc]
 
@@ -282,11 +284,11 @@ DeepCase(i) ==
   LET o == OptFor(i.id, i.k)
       a == Allowed(i.k, o, i.doc, "typed")
       inner0 == [err |-> a.err, ok |-> a.ok \/ a.any, any |-> a.any, val |-> SubVal, alt |-> NoVal, why |-> a.why]
-      inner == IF i.shape = "sp0" THEN Weaken(inner0) ELSE inner0
+      inner == IF i.shape = "sp0" THEN Weaken(inner0) ELSE IF i.shape = "sx" THEN MustErr ELSE inner0
       fb == PrimJ(i.n, i.k, FALSE, o, i.doc, a)
       fd == [name |-> Names["a"], shape |-> "deep", kind |-> i.shape, ptr |-> FALSE, opts |-> OptsJ(Plain),
              inherit |-> FALSE, part |-> "", doc |-> [d |-> "sub"], out |-> inner, sub |-> <<fb>>]
-  IN CaseJ("deep", "typed", DocYaml(i.doc), <<fd>>, <<inner>>)
+  IN CaseJ("deep", "typed", DocYaml(i.doc) /\ i.shape # "sp0", <<fd>>, <<inner>>)
 
 \* --------------------------------------------------------------- family: roundtrip
 \* one field per request part; the value of each field is named by a literal that fits its kind.
